@@ -25,7 +25,7 @@ func checkC19(res *Result) {
 
 	type reqSpec struct {
 		fn, method, ctHeader, ctValue, signer string
-		hasBody                              bool
+		hasBody                               bool
 	}
 	for _, rs := range []reqSpec{
 		{"HttpSigTransport.Dereference", "GET", "Accept", "application/ld+json; profile=\"https://www.w3.org/ns/activitystreams\"", "getSigner", false},
